@@ -258,6 +258,7 @@ func verifC19(c *drv.Ctx) {
 		{subnet: "10.0.1.0/30", interval: 1, stopAfter: 9, bound: 1},
 		{subnet: "10.0.1.0/30", exclude: "10.0.1.2", interval: 400 * time.Millisecond, slow: 100 * time.Millisecond, stopAfter: 8, bound: 1},
 		{subnet: "10.0.1.4/31", interval: 10 * time.Second, slow: 7 * time.Second, stopAfter: 6, bound: 1},
+		{subnet: "10.0.1.0/30", interval: time.Second, slow: 400 * time.Millisecond, stopAfter: 9, bound: 1}, // a pass (1.2 s) outlasts the interval
 		{subnet: "10.0.1.0/30", interval: 10 * time.Second, failOn: 2, bound: 1},
 		{subnet: "10.0.1.0/31", interval: 1, failOn: 3, bound: 1},
 		{subnet: "10.0.1.7/32", interval: time.Second, stopAfter: 4, bound: 2},
